@@ -90,7 +90,9 @@ def random_problem(rng, machine, nnets):
         r = rng.random()
         if r < 0.08:
             endpoints[v] = Routes(rng.randrange(6))           # device vertex: route to a link
-            allocations[v] = {}
+            # it may or may not own cores as well (e.g. {Cores: 0} gives an empty range); the endpoint wins
+            k = rng.choice((None, None, 0, 1))
+            allocations[v] = {} if k is None else {Cores: slice(17 - k, 17)}
         elif r < 0.14:
             allocations[v] = {SDRAM: slice(0, 4)}              # no core resource at all
         else:
